@@ -1,5 +1,5 @@
 CONSTANTS Depth = 4
- MaxObjs = 3
+ MaxObjs = 2
 INIT Init
 NEXT Next
 INVARIANT PolicyKept
